@@ -448,6 +448,11 @@ var miscPrograms = []string{
 	`{ $2 = "07"; print ($2 < 10) } END { print ($2 < 10), ($2 == 7) }`, `NR == 1 { $2 = "07" } NR == 1 { getline; print ($2 < 10), ($2 == 4), ($1 < 10) }`, `{ $1 = "x"; $0 = "10 9"; print ($1 < $2), ($1 < 9), ($2 < 10) }`,
 	`NR == 1 { $2 = "x"; $4 = "y" } NR == 2 { NF = 4; print ($2 < 10), ($4 == 0), ($4 == "") } NR == 3 { print ($1 < 10) }`, `NR == 1 { $1 = "10" } { if ($1 < 9) print "lt"; else print "ge"; while ($1 < 9) { print "loop"; break } }`,
 	`{ $3 = "x" } { n = split($0, parts); print (parts[1] < 10), (parts[2] < 10) } NR == 2 { print ($1 < 10), ($2 < 10), ($3 < 10) }`,
+	`BEGIN { for (i = 0; i < 150; i++) { if (("x" i) ~ ("x" i "$")) n++; if (("y" i) ~ ("x" i)) m++ }; print n, m; for (i = 0; i < 150; i++) if (("x" i) ~ ("x" i "$")) n++; print n }`,
+	`BEGIN { for (i = 0; i < 130; i++) s = s sprintf("%" (i % 9 + 1) "d|%s;", i, i); print length(s); for (i = 0; i < 130; i++) t = t sprintf("%" (i % 9 + 1) "d|%s;", i, i); print (s == t) }`,
+	`BEGIN { for (i = 0; i < 120; i++) { n += split("a" i "b" i "c", parts, "" i); gsub("" i, "#", str) }; print n, parts[1], parts[2] }`,
+	`{ for (i = NF; i > 0; i--) r = r $i "|"; print NF ":" r; r = "" } END { print NR }`, `{ n = NF; $(n + 1) = NR; print; print NF } NR == 2 { NF = 1; print; $3 = "t"; print }`,
+	`{ a[NR] = $1; b[NR] = NF; c[$NF]++ } END { for (i = 1; i <= NR; i++) print i, a[i], b[i]; for (k in c) print k, c[k] }`,
 	`{ { } }`, `{ ; }`, `$1 { { } { } }`, `NR == 1 { ; ; }`, `/a/ { if (0) ; }`, `{ { } } END { print NR }`,
 	`NR == 1 { print "one" } NR == 1 { print "again" } { print "all", NR }`,
 	`NR % 2`, `NF`, `$0`, `$2`, `"x"`, `""`, `0`, `1`, `u`, `$1 ~ "^[0-9]+$"`, `$1 ~ $2`, `x = NR`, `(NR == 2)`,
